@@ -798,3 +798,71 @@ func (pc *pCtx) p8Twins(only string) {
 			fmt.Sprintf("strings.%s uses unicode.{%s}, bytes.%s uses unicode.{%s}", k, strings.Join(sortedStrs(ca), ","), k, strings.Join(sortedStrs(cb), ",")), pc.pos(a.Pos()))
 	}
 }
+
+// p1CtxKeys: a context key that the library makes up itself is a value of a named type declared in the library (a
+// private struct type): a key of an unnamed or built-in type - `struct{}{}`, a string - is equal to the same value
+// made anywhere else, so the library's entry and the application's overwrite each other.
+func (pc *pCtx) p1CtxKeys(only string) {
+	var paths []string
+	for p := range pc.kc.w.ByPath {
+		if isRoPkg(p) && !strings.Contains(p, "/examples/") && !strings.HasSuffix(p, "/testing") {
+			paths = append(paths, p)
+		}
+	}
+	sort.Strings(paths)
+	for _, p := range paths {
+		fns := pc.kc.w.allFuncs(p)
+		for _, k := range sortedKeys(fns) {
+			fn := fns[k]
+			if fn.Blocks == nil || fn.Parent() != nil || strings.HasSuffix(pc.kc.w.Prog.Fset.Position(fn.Pos()).Filename, "_test.go") {
+				continue
+			}
+			name := k
+			if p != roPath {
+				name = strings.TrimPrefix(p, roPath+"/") + "." + k
+			}
+			if only != "" && !strings.Contains(name, only) {
+				continue
+			}
+			keys := 0
+			bad := ""
+			var at token.Pos
+			for _, f := range closureTree(fn) {
+				for _, b := range f.Blocks {
+					for _, ins := range b.Instrs {
+						call, ok := ins.(ssa.CallInstruction)
+						if !ok {
+							continue
+						}
+						c := call.Common()
+						var key ssa.Value
+						if cf := c.StaticCallee(); cf != nil && cf.Pkg != nil && cf.Pkg.Pkg.Path() == "context" && cf.Name() == "WithValue" && len(c.Args) == 3 {
+							key = c.Args[1]
+						} else if c.IsInvoke() && c.Method.Name() == "Value" && len(c.Args) == 1 && isContextType(c.Value.Type()) {
+							key = c.Args[0]
+						}
+						mi, ok := key.(*ssa.MakeInterface)
+						if !ok {
+							continue // a key handed in by the caller
+						}
+						keys++
+						nt, isNamed := mi.X.Type().(*types.Named)
+						if !(isNamed && nt.Obj().Pkg() != nil && isRoPkg(nt.Obj().Pkg().Path())) && bad == "" {
+							bad = fmt.Sprintf("context key of type %s at %s", mi.X.Type().String(), pc.pos(ins.Pos()))
+							at = ins.Pos()
+						}
+					}
+				}
+			}
+			if keys == 0 {
+				continue
+			}
+			props := []string{"C09"}
+			if strings.Contains(p, "/ee/plugins/prometheus") {
+				props = []string{"C19", "C09"}
+			}
+			pc.add(props, fmt.Sprintf("P1/%s/context-keys-are-of-a-private-named-type", name),
+				"a context key made up by the library is a value of a named type declared in the library", bad == "", bad, pc.pos(at))
+		}
+	}
+}
